@@ -324,4 +324,171 @@ theorem tickClients_inv {s : Server} (h : SyncInv s) (hw : WF s) (dt : Int)
   rw [this]
   exact tickClients_loop s dt hR s.clients (s, []) h hw (Lst.refl s) rfl (fun e he => ⟨he, he, rfl⟩) hw.clients_nodup
 
+/-! ### the schedule ops: parking and releasing handlers -/
+
+/-- `dropHold`: the handler of a stopped session is parked before its clean-up -/
+theorem SyncInv.park {s : Server} (h : SyncInv s) (i : Nat) (hi : i < s.objs.length)
+    (hst : (getObj s i).stopped = true) (hfree : Free s i)
+    (hreg : (getObj s i).takenOver = true ∨ assocGet s.clients (getObj s i).id = some i) :
+    SyncInv { s with parked := s.parked ++ [i] } := by
+  refine ⟨h.idx, h.own, h.key, h.os, h.ts, ?_, h.regTO, ?_, ?_, ?_, ?_, h.st1, h.pendNodup, h.pendConn⟩
+  · intro k hk ha ht hx hs1
+    by_cases hki : k = i
+    · subst hki
+      rcases hreg with hr | hr
+      · replace ht : (getObj s k).takenOver = false := ht
+        rw [hr] at ht; cases ht
+      · exact hr
+    · refine h.reg k hk ?_ ht hx hs1
+      rcases ha with ha | ha | ha
+      · exact Or.inl ha
+      · replace ha : k ∈ s.parked ++ [i] := ha
+        rcases List.mem_append.mp ha with ha | ha
+        · exact Or.inr (Or.inl ha)
+        · exact absurd (List.mem_singleton.mp ha) hki
+      · exact Or.inr (Or.inr ha)
+  · intro k hk
+    replace hk : k ∈ s.parked ++ [i] ∨ k ∈ s.parkedEarly := hk
+    rcases hk with hk | hk
+    · rcases List.mem_append.mp hk with hk | hk
+      · exact h.parkedLt k (Or.inl hk)
+      · rw [List.mem_singleton.mp hk]; exact hi
+    · exact h.parkedLt k (Or.inr hk)
+  · intro k hk
+    replace hk : k ∈ s.parked ++ [i] := hk
+    rcases List.mem_append.mp hk with hk | hk
+    · exact h.disj k hk
+    · rw [List.mem_singleton.mp hk]; exact hfree.2.1
+  · intro k hk
+    replace hk : k ∈ s.parked ++ [i] := hk
+    rcases List.mem_append.mp hk with hk | hk
+    · exact h.parkedStopped k hk
+    · rw [List.mem_singleton.mp hk]; exact hst
+  · intro p hp
+    refine ⟨fun hm => ?_, (h.pendFree p hp).2⟩
+    replace hm : p.obj ∈ s.parked ++ [i] := hm
+    rcases List.mem_append.mp hm with hm | hm
+    · exact (h.pendFree p hp).1 hm
+    · exact hfree.2.2 p hp (List.mem_singleton.mp hm)
+
+/-- `dropHoldEarly`: the handler of a live session is parked right after its read loop -/
+theorem SyncInv.parkEarly {s : Server} (h : SyncInv s) (i : Nat) (hi : i < s.objs.length)
+    (hlive : (getObj s i).stopped = false) (hfree : Free s i) :
+    SyncInv { s with parkedEarly := s.parkedEarly ++ [i] } := by
+  refine ⟨h.idx, h.own, h.key, h.os, h.ts, ?_, h.regTO, ?_, ?_, h.parkedStopped, ?_, h.st1, h.pendNodup, h.pendConn⟩
+  · intro k hk ha ht hx hs1
+    refine h.reg k hk ?_ ht hx hs1
+    rcases ha with ha | ha | ha
+    · exact Or.inl ha
+    · exact Or.inr (Or.inl ha)
+    · replace ha : k ∈ s.parkedEarly ++ [i] := ha
+      rcases List.mem_append.mp ha with ha | ha
+      · exact Or.inr (Or.inr ha)
+      · rw [List.mem_singleton.mp ha]; exact Or.inl hlive
+  · intro k hk
+    replace hk : k ∈ s.parked ∨ k ∈ s.parkedEarly ++ [i] := hk
+    rcases hk with hk | hk
+    · exact h.parkedLt k (Or.inl hk)
+    · rcases List.mem_append.mp hk with hk | hk
+      · exact h.parkedLt k (Or.inr hk)
+      · rw [List.mem_singleton.mp hk]; exact hi
+  · intro k hk hm
+    replace hm : k ∈ s.parkedEarly ++ [i] := hm
+    rcases List.mem_append.mp hm with hm | hm
+    · exact h.disj k hk hm
+    · rw [List.mem_singleton.mp hm] at hk; exact hfree.1 hk
+  · intro p hp
+    refine ⟨(h.pendFree p hp).1, fun hm => ?_⟩
+    replace hm : p.obj ∈ s.parkedEarly ++ [i] := hm
+    rcases List.mem_append.mp hm with hm | hm
+    · exact (h.pendFree p hp).2 hm
+    · exact hfree.2.2 p hp (List.mem_singleton.mp hm)
+
+/-- a parked handler runs on: it leaves the lists -/
+theorem SyncInv.unpark {s : Server} (h : SyncInv s) (f g : Nat → Bool) :
+    SyncInv { s with parked := s.parked.filter f, parkedEarly := s.parkedEarly.filter g } := by
+  have m1 : ∀ k, k ∈ s.parked.filter f → k ∈ s.parked := fun k hk => (List.mem_filter.mp hk).1
+  have m2 : ∀ k, k ∈ s.parkedEarly.filter g → k ∈ s.parkedEarly := fun k hk => (List.mem_filter.mp hk).1
+  refine ⟨h.idx, h.own, h.key, h.os, h.ts, ?_, h.regTO, ?_, ?_, ?_, ?_, h.st1, h.pendNodup, h.pendConn⟩
+  · intro k hk ha ht hx hs1
+    refine h.reg k hk ?_ ht hx hs1
+    rcases ha with ha | ha | ha
+    · exact Or.inl ha
+    · exact Or.inr (Or.inl (m1 k ha))
+    · exact Or.inr (Or.inr (m2 k ha))
+  · intro k hk
+    rcases hk with hk | hk
+    · exact h.parkedLt k (Or.inl (m1 k hk))
+    · exact h.parkedLt k (Or.inr (m2 k hk))
+  · intro k hk hm
+    exact h.disj k (m1 k hk) (m2 k hm)
+  · intro k hk
+    exact h.parkedStopped k (m1 k hk)
+  · intro p hp
+    exact ⟨fun hm => (h.pendFree p hp).1 (m1 _ hm), fun hm => (h.pendFree p hp).2 (m2 _ hm)⟩
+
+/-- a handler is parked inside `attachClient` -/
+theorem SyncInvX.addPending {X : Nat → Prop} {s : Server} (h : SyncInvX X s) (p : Pending)
+    (hX : ∀ k, X k → p.stage = 1 ∧ p.obj = k)
+    (hnew : p.obj ∉ s.pending.map (·.obj)) (hnp : p.obj ∉ s.parked) (hne : p.obj ∉ s.parkedEarly)
+    (hconn : assocGet s.connOf p.conn = some p.obj)
+    (h1 : p.stage = 1 → (∀ c, assocGet s.clients c ≠ some p.obj) ∧ (getObj s p.obj).takenOver = false) :
+    SyncInv { s with pending := s.pending ++ [p] } := by
+  refine ⟨h.idx, h.own, h.key, h.os, h.ts, ?_, h.regTO, h.parkedLt, h.disj, h.parkedStopped, ?_, ?_, ?_, ?_⟩
+  · intro k hk ha ht _ hs1
+    replace hs1 : ¬ Stage1 { s with pending := s.pending ++ [p] } k := hs1
+    refine h.reg k hk ha ht ?_ ?_
+    · intro hx
+      obtain ⟨a, b⟩ := hX k hx
+      exact hs1 ⟨p, List.mem_append_right _ (List.mem_singleton.mpr rfl), a, b⟩
+    · rintro ⟨q, hq, a, b⟩
+      exact hs1 ⟨q, List.mem_append_left _ hq, a, b⟩
+  · intro q hq
+    replace hq : q ∈ s.pending ++ [p] := hq
+    rcases List.mem_append.mp hq with hq | hq
+    · exact h.pendFree q hq
+    · rw [List.mem_singleton.mp hq]; exact ⟨hnp, hne⟩
+  · intro q hq hs
+    replace hq : q ∈ s.pending ++ [p] := hq
+    rcases List.mem_append.mp hq with hq | hq
+    · exact h.st1 q hq hs
+    · rw [List.mem_singleton.mp hq] at hs ⊢; exact h1 hs
+  · show ((s.pending ++ [p]).map (·.obj)).Nodup
+    rw [List.map_append, List.nodup_append]
+    refine ⟨h.pendNodup, List.nodup_cons.mpr ⟨List.not_mem_nil, List.nodup_nil⟩, ?_⟩
+    intro a ha b hb hab
+    rw [List.map_cons, List.map_nil, List.mem_singleton] at hb
+    subst hb; subst hab
+    exact hnew ha
+  · intro q hq
+    replace hq : q ∈ s.pending ++ [p] := hq
+    rcases List.mem_append.mp hq with hq | hq
+    · exact h.pendConn q hq
+    · rw [List.mem_singleton.mp hq]; exact hconn
+
+/-- the handlers parked on connection `conn` are released -/
+theorem SyncInv.filterPending {s : Server} (h : SyncInv s) (p : Pending) (hp : p ∈ s.pending) (conn : Nat)
+    (hpc : p.conn = conn) :
+    SyncInvX (· = p.obj) { s with pending := s.pending.filter (·.conn != conn) } := by
+  have m : ∀ q, q ∈ s.pending.filter (·.conn != conn) → q ∈ s.pending := fun q hq => (List.mem_filter.mp hq).1
+  refine ⟨h.idx, h.own, h.key, h.os, h.ts, ?_, h.regTO, h.parkedLt, h.disj, h.parkedStopped,
+    fun q hq => h.pendFree q (m q hq), fun q hq => h.st1 q (m q hq),
+    (List.filter_sublist.map _).nodup h.pendNodup, fun q hq => h.pendConn q (m q hq)⟩
+  intro k hk ha ht hx hs1
+  replace hs1 : ¬ Stage1 { s with pending := s.pending.filter (·.conn != conn) } k := hs1
+  refine h.reg k hk ha ht (fun x => x) ?_
+  rintro ⟨q, hq, a, b⟩
+  by_cases hqc : q.conn = conn
+  · -- `q` is released too: it is parked on the same connection, hence belongs to the same object
+    apply hx
+    have e1 := h.pendConn q hq
+    have e2 := h.pendConn p hp
+    rw [hqc] at e1
+    rw [hpc] at e2
+    rw [e1] at e2
+    have e3 : q.obj = p.obj := Option.some.inj e2
+    show k = p.obj
+    rw [← b]; exact e3
+  · exact hs1 ⟨q, List.mem_filter.mpr ⟨hq, by simpa using hqc⟩, a, b⟩
+
 end Mochi.Broker
